@@ -1094,11 +1094,11 @@ Proof.
   - intros a c Ha Hc. apply (valid_seq_inj l Hv); [apply filter_In in Ha | apply filter_In in Hc]; tauto.
 Qed.
 
-(* ¬K2: the checkpoint sidecar, when present, is the projection of the truth stream; when absent,
-   a full sidecar without an unparsable line is the truth stream (so what is built from it is the
-   projection) *)
+(* ¬K2: the checkpoint sidecar, when present and not zero-length, is the projection of the truth stream; when
+   absent (or zero-length: the readers treat that as absent since the S4c fix), a full sidecar without an
+   unparsable line is the truth stream (so what is built from it is the projection) *)
 Definition CompFaithful (l : log) (comp full : sfile) : Prop :=
-  match comp with
+  match comp_seen comp with
   | Some ls => ls = comp_projection l
   | None => match full with
             | None => True
@@ -1129,7 +1129,7 @@ Proof.
   intros Hv Hp Hff Hcf. unfold status_ckpt_fast.
   rewrite (replay_faithful l full Hv Hff). fold (latest_ckpt_truth U64MAX l).
   unfold latest_ckpt_cache.
-  destruct comp as [ls|]; cbn [CompFaithful] in Hcf.
+  unfold CompFaithful in Hcf. destruct (comp_seen comp) as [ls|].
   - subst ls. cbv iota beta. exact (ckpt_file_fast me mb l Hv Hp).
   - destruct full as [fl|]; [|reflexivity].
     unfold header_project. destruct (all_good fl) as [fs|] eqn:Eg; cbn [option_map]; [|reflexivity].
@@ -1148,7 +1148,7 @@ Lemma K2_changes_answer :
   /\ option_map fseq (latest_ckpt_truth U64MAX wlog3) = Some 3.
 Proof.
   split; [reflexivity|]. split; [reflexivity|]. split; [apply project_full_faithful|]. split.
-  - cbn [CompFaithful]. vm_compute. discriminate.
+  - unfold CompFaithful, comp_seen. vm_compute. discriminate.
   - split; vm_compute; reflexivity.
 Qed.
 
@@ -1159,7 +1159,7 @@ Lemma status_ckpt_example :
   /\ status_ckpt_fast 100 1000 None (Some (project_full wlog3)) wlog3 = Some 3.
 Proof.
   split; [reflexivity|]. split.
-  - cbn [CompFaithful]. intros fs H. unfold project_full in H. rewrite all_good_of_map in H. inversion H; reflexivity.
+  - unfold CompFaithful, comp_seen. intros fs H. unfold project_full in H. rewrite all_good_of_map in H. inversion H; reflexivity.
   - split; vm_compute; reflexivity.
 Qed.
 
@@ -1220,10 +1220,61 @@ Proof.
   - apply IH. intros c' Hc'. apply H. right; exact Hc'.
 Qed.
 
-(* S15: the identity of the default is not recovered once the workspace has a branch / handoff child *)
+(* S15 (fixed in /repo): before the fix the identity of the default was not recovered once the workspace had a branch /
+   handoff child; the repaired scan skips children *)
 Lemma default_recovery_child :
-  recover_default 7 [(100, 1, 7); (105, 2, 7)] = Some 2.
-Proof. vm_compute. reflexivity. Qed.
+  recover_default 7 [(100, 1, 7); (105, 2, 7)] = Some 2
+  /\ recover_default_fixed 7 [(100, 1, 7); (105, 2, 7)] [2] = Some 1.
+Proof. split; vm_compute; reflexivity. Qed.
+
+Lemma filter_incl_in {A} (p : A -> bool) (x : A) l : In x (filter p l) -> In x l.
+Proof. intros H. apply filter_In in H. tauto. Qed.
+
+Theorem default_recovery_existing_fixed ws cs children id :
+  recover_default_fixed ws cs children = Some id -> exists c, In c cs /\ cr_id c = id /\ cr_ws c = ws.
+Proof.
+  unfold recover_default_fixed. destruct (recover_default ws (filter (not_child children) cs)) as [i|] eqn:E.
+  - intros H. inversion H; subst i. destruct (default_recovery_existing ws _ id E) as (c & Hc & Hi & Hw).
+    exists c. split; [exact (filter_incl_in _ c cs Hc)|tauto].
+  - exact (default_recovery_existing ws cs id).
+Qed.
+
+Theorem default_recovery_none_fixed ws cs children :
+  recover_default_fixed ws cs children = None -> forall c, In c cs -> cr_ws c <> ws.
+Proof.
+  unfold recover_default_fixed. destruct (recover_default ws (filter (not_child children) cs)); [discriminate|].
+  exact (default_recovery_none ws cs).
+Qed.
+
+(* the default is recovered whenever it is the only thread of the workspace that is not a branch / handoff child *)
+Theorem default_recovery_root ws ts id others children :
+  ~ In id children ->
+  (forall c, In c others -> cr_ws c <> ws \/ In (cr_id c) children) ->
+  recover_default_fixed ws ((ts, id, ws) :: others) children = Some id.
+Proof.
+  intros Hr Ho. unfold recover_default_fixed. cbn [filter].
+  assert (Nc : not_child children (ts, id, ws) = true).
+  { unfold not_child. cbn [cr_id fst snd]. apply negb_true_iff. apply not_true_is_false. intros E.
+    apply existsb_exists in E. destruct E as (x & Hx & Ex). apply N.eqb_eq in Ex. subst x. exact (Hr Hx). }
+  rewrite Nc. rewrite default_recovery_single; [reflexivity|].
+  intros c Hc. apply filter_In in Hc. destruct Hc as [Hc Hn]. destruct (Ho c Hc) as [W|C]; [exact W|].
+  exfalso. unfold not_child in Hn. apply negb_true_iff in Hn.
+  assert (T : existsb (N.eqb (cr_id c)) children = true) by (apply existsb_exists; exists (cr_id c); split; [exact C|apply N.eqb_refl]).
+  rewrite T in Hn. discriminate.
+Qed.
+
+(* S4c (fixed in /repo): the reader before the fix took a zero-length checkpoint sidecar for a complete empty history *)
+Lemma zero_length_comp_unfixed :
+  latest_ckpt_cache_unfixed 100 1000 (Some []) (Some (project_full wlog3)) U64MAX = CkSome None
+  /\ latest_ckpt_cache 100 1000 (Some []) (Some (project_full wlog3)) U64MAX = CkSome (Some (wck 3 2))
+  /\ CompFaithful wlog3 (Some []) (Some (project_full wlog3)).
+Proof.
+  split; [vm_compute; reflexivity|]. split; [vm_compute; reflexivity|].
+  unfold CompFaithful, comp_seen. intros fs H. unfold project_full in H. rewrite all_good_of_map in H. inversion H; reflexivity.
+Qed.
+Lemma zero_length_comp_is_absent me mb full mt :
+  latest_ckpt_cache me mb (Some []) full mt = latest_ckpt_cache me mb None full mt.
+Proof. reflexivity. Qed.
 
 (* ------------------------------------------------------------------ cut points through the caches *)
 Lemma ckpt_cache_some me mb mt comp full l r :
@@ -1238,7 +1289,7 @@ Proof.
             end = CkSome r -> r = latest_ckpt mt None l).
   { intros ls -> H. destruct (scan_back me mb (comp_projection l)) as [| |fs_rev cpl] eqn:Es; try discriminate.
     destruct cpl; [|discriminate]. inversion H. apply (ckpt_projection_scan me mb mt l fs_rev Hv Hp Es). }
-  destruct comp as [ls|]; cbn [CompFaithful] in Hcf.
+  unfold CompFaithful in Hcf. destruct (comp_seen comp) as [ls|].
   - cbv iota beta. apply Hfile. exact Hcf.
   - destruct full as [fl|]; [|discriminate].
     unfold header_project. destruct (all_good fl) as [fs|] eqn:Eg; cbn [option_map]; [|discriminate].
@@ -1259,7 +1310,7 @@ Lemma ckpt_cache_none mt me mb comp full l :
   full = None \/ latest_ckpt mt None l = None.
 Proof.
   intros Hcf. unfold latest_ckpt_cache.
-  destruct comp as [ls|]; cbn [CompFaithful] in Hcf.
+  unfold CompFaithful in Hcf. destruct (comp_seen comp) as [ls|].
   - cbv iota beta. destruct (scan_back me mb ls) as [| |fs_rev cpl]; try discriminate. destruct cpl; discriminate.
   - destruct full as [fl|]; [|left; reflexivity].
     unfold header_project. destruct (all_good fl) as [fs|] eqn:Eg; cbn [option_map]; [|discriminate].
